@@ -376,6 +376,21 @@ class Gen:
                 self.vcalls.append((name, args))
         sc = self.scope(g)
         body = self.stmts(sc, r.randrange(6, 14), 0)
+        # goto patterns at the top level of main: all top-level declarations are hoisted before the first label
+        if r.random() < 0.6:
+            decls = [x for x in body if x["k"] in ("decl", "static", "vla")]
+            rest = [x for x in body if x["k"] not in ("decl", "static", "vla")]
+            cnt, la, lb, lc = self.fresh("gc"), self.fresh("L"), self.fresh("L"), self.fresh("L")
+            cut1 = r.randrange(len(rest) + 1)
+            cut2 = r.randrange(cut1, len(rest) + 1)
+            mid = rest[cut1:cut2]
+            # backward jump (a loop made of goto), a forward jump over statements, and a jump out of a nested loop
+            rest = (rest[:cut1] + [s_label(la)] + mid +
+                    [s_expr(incdec(var(cnt), dec=True)), s_if(bin_("!=", var(cnt), lit("int", 0)), s_goto(la)),
+                     s_if(self.expr(sc, 2), s_goto(lb)), s_obs(lit("int", 77)), s_label(lb),
+                     s_for(s_decl(self.fresh("i"), T("int"), i_e(lit("int", 0))), lit("int", 1), None,
+                           s_block([s_obs(lit("int", 78)), s_if(lit("int", 1), s_goto(lc))])), s_label(lc)] + rest[cut2:])
+            body = decls + [s_decl(cnt, T("uint"), i_e(lit("uint", r.randrange(1, 4))))] + rest
         for name, args in self.vcalls:
             u = self.fresh("u")
             body += [s_decl(u, T("ulong"), i_e(lit("ulong", 0))), s_call(name, args, var(u)), s_obs(var(u))]
